@@ -136,7 +136,7 @@ func H_C12_asr_vs_acr() {
 	algoIdx := sxChoose("algo", 3)
 	asrAlgo := []int{asr.ALGO_DOWNPASS, asr.ALGO_DELTRAN, asr.ALGO_ACCTRAN}[algoIdx]
 	acrAlgo := []int{acr.ALGO_DOWNPASS, acr.ALGO_DELTRAN, acr.ALGO_ACCTRAN}[algoIdx]
-	letters := "ACG"
+	letters := "ACG"[:sxParam("k", 3)]
 	a := align.NewAlign(align.NUCLEOTIDS)
 	chars := map[string]string{}
 	for _, tp := range t.Tips() {
